@@ -234,6 +234,9 @@ pub struct Params {
 /// test serving BinanceSpot (exchange index 0, instruments 0, 1) / Kraken (exchange index 1, instruments 2, 3).
 /// 4 = like 3, but the instrument set starts with an exchange (BinanceFuturesUsd, sorts first) for which NO execution manager is added:
 /// the manager under test serves Kraken as exchange index 2 (instruments 3, 4; exchanges are indexed in `ExchangeId` order) behind an unlinked exchange.
+/// 5 = like 3, but BinanceSpot has ONE instrument only: Kraken's instruments carry the engine-wide indices 1, 2 while they sit at
+/// positions 0, 1 of the manager's own map - index 1 is in range of the local map but names a different position, so a
+/// positional ("fast path") translation with a scan as fall-back answers about the wrong instrument (seeded change C07_4).
 type Cfg = u8;
 
 /// `repeats == false`: cid labels in first-occurrence order (restricted growth), (kind, cid) pairwise
@@ -567,9 +570,12 @@ fn build_subject(
         // an exchange without execution link placed BEFORE the linked ones
         instruments = instruments.add_instrument(spot(ExchangeId::BinanceFuturesUsd, "bf_btc_usdt", "BTCUSDT", "btc", "usdt"));
     }
+    let mut instruments = instruments
+        .add_instrument(spot(ExchangeId::BinanceSpot, "b_btc_usdt", "BTCUSDT", "btc", "usdt"));
+    if cfg != 5 {
+        instruments = instruments.add_instrument(spot(ExchangeId::BinanceSpot, "b_eth_usdt", "ETHUSDT", "eth", "usdt"));
+    }
     let instruments = instruments
-        .add_instrument(spot(ExchangeId::BinanceSpot, "b_btc_usdt", "BTCUSDT", "btc", "usdt"))
-        .add_instrument(spot(ExchangeId::BinanceSpot, "b_eth_usdt", "ETHUSDT", "eth", "usdt"))
         .add_instrument(spot(ExchangeId::Kraken, "k_btc_usdt", "XBT/USDT", "btc", "usdt"))
         .add_instrument(spot(ExchangeId::Kraken, "k_eth_usdt", "ETH/USDT", "eth", "usdt"))
         .build();
@@ -1654,8 +1660,8 @@ pub fn run(ctx: &Ctx) -> Outcome {
     // (label, n, repeated (kind, cid) batches?, cfgs, params, deviation bound)
     let mut plans: Vec<(&str, usize, bool, Vec<Cfg>, Params, Option<usize>)> = vec![
         // (cfg 2, 3: the same schedules through the builder path; `partial`: opens may also be answered partly filled)
-        ("n=1", 1, false, vec![0, 1, 2, 3, 4], Params { partial: true, err_classes: true, ..uniform(true, true) }, None),
-        ("n=2", 2, false, vec![0, 1, 2, 3, 4], Params { partial: true, err_classes: true, ..uniform(true, true) }, None),
+        ("n=1", 1, false, vec![0, 1, 2, 3, 4, 5], Params { partial: true, err_classes: true, ..uniform(true, true) }, None),
+        ("n=2", 2, false, vec![0, 1, 2, 3, 4, 5], Params { partial: true, err_classes: true, ..uniform(true, true) }, None),
         // request timeouts far outside the everyday range: 36 h and 2 ms (instants T/2 apart), direct and through the builder
         ("n=2/T=36h", 2, false, vec![0, 3], Params { timeout_ms: 129_600_000, instants: vec![0, 64_800_000, 129_600_000, 194_400_000, 259_200_000], deliver_until: 64_800_000, ..uniform(false, false) }, None),
         ("n=2/T=2ms", 2, false, vec![1, 2], Params { timeout_ms: 2, instants: vec![0, 1, 2, 3, 4], deliver_until: 1, ..uniform(false, false) }, None),
